@@ -4,6 +4,7 @@ import (
 	"fmt"
 	"go/constant"
 	"go/token"
+	"go/types"
 	"sort"
 	"strings"
 
@@ -344,6 +345,31 @@ func c13Counters(p *load.Program, r *oblig.Report) {
 		}
 		r.Check(ok, rule, "kafka."+name+" serialises the use of a user-supplied Hasher", p.Pos(fn.Pos()), "if hasher != nil { h.lock.Lock(); defer h.lock.Unlock() }", "not recognised")
 	}
+	// the hasher starts from its initial state for every message, whether it came from the pool or from the user:
+	// no path reaches hasher.Write without passing hasher.Reset
+	for _, name := range []string{"(*Hash).Balance", "(*ReferenceHash).Balance"} {
+		fn := p.Func("", name)
+		if fn == nil {
+			continue // reported above
+		}
+		isHashCall := func(i ssa.Instruction, m string) bool {
+			c, ok := i.(*ssa.Call)
+			return ok && c.Call.IsInvoke() && c.Call.Method.Name() == m && strings.HasPrefix(types.TypeString(c.Call.Value.Type(), nil), "hash.Hash")
+		}
+		nW := 0
+		an.EachInstr(fn, func(i ssa.Instruction) {
+			if isHashCall(i, "Write") {
+				nW++
+			}
+		})
+		q := an.PathQuery{Fn: fn, Stop: func(i ssa.Instruction) bool { return isHashCall(i, "Reset") }, Target: func(i ssa.Instruction) bool { return isHashCall(i, "Write") }}
+		hit := q.ReachableFrom(an.EntryPoint(fn))
+		where := ""
+		if hit != nil {
+			where = "hasher.Write at " + p.Pos(hit.Pos()) + " is reachable without a Reset"
+		}
+		r.Check(nW > 0 && hit == nil, "C13.R8 the hasher starts from its initial state for every message", "kafka."+name+" resets the hasher before hashing the key on every path", p.Pos(fn.Pos()), "hasher.Reset() precedes hasher.Write(key)", where)
+	}
 	// LeastBytes: strict < and the bytes added
 	lb := p.Func("", "(*LeastBytes).Balance")
 	if lb == nil {
@@ -363,11 +389,23 @@ func c13Counters(p *load.Program, r *oblig.Report) {
 			runningWhy = "compared against " + y
 			if ph, isPhi := ci.Y.(*ssa.Phi); isPhi && running {
 				upd := false
-				for _, e := range ph.Edges {
-					if e == ci.X || clean(an.Shape(e)) == clean(an.Shape(ci.X)) {
-						upd = true
+				seenPhi := map[*ssa.Phi]bool{}
+				var walk func(q *ssa.Phi)
+				walk = func(q *ssa.Phi) {
+					if seenPhi[q] {
+						return
+					}
+					seenPhi[q] = true
+					for _, e := range q.Edges {
+						if e == ci.X || clean(an.Shape(e)) == clean(an.Shape(ci.X)) {
+							upd = true
+						}
+						if q2, isPhi2 := e.(*ssa.Phi); isPhi2 {
+							walk(q2)
+						}
 					}
 				}
+				walk(ph)
 				running = upd
 				if !upd {
 					runningWhy += ", which is never updated with " + clean(an.Shape(ci.X))
